@@ -254,6 +254,11 @@ SpaceX ==
 (* C08 family: refined sampling and samplers at dynamically feasible       *)
 (* points (the probe's node states are the propagated ones).               *)
 (***************************************************************************)
+FeasibleProbeG(d, s, gv) ==
+  LET p0 == [MkProbe(d, s) EXCEPT !.gv = gv]
+      dSS == [d EXCEPT !.method.kind = "SS"]
+      W == World(dSS, p0)
+  IN IF d.method.kind = "DC" THEN p0 ELSE [p0 EXCEPT !.X = W.X]
 FeasibleProbe(d, s) ==
   LET p0 == MkProbe(d, s)
       dSS == [d EXCEPT !.method.kind = "SS"]
@@ -279,6 +284,28 @@ SpaceR == {s \in [rhs : {"R1", "R2", "R3", "R5"}, meth : {"MS", "SS", "DC"}, int
               /\ (s.meth = "DC" <=> s.intg \in {"radau1", "radau2", "legendre1"})
               /\ (s.rhs = "R5" => s.N * s.M <= 2 \/ s.intg = "expl_euler")
               /\ (s.rhs = "R3" => s.meth # "DC" \/ TRUE)}
+
+(***************************************************************************)
+(* C15 family: grid='inf' constraints.                                     *)
+(***************************************************************************)
+InfCon(cid, lhs, rhs) == Con(cid, "le", lhs, rhs, "inf", TRUE, TRUE)
+InfIds == {"i1", "i2", "i3", "i4", "i5", "i6"}
+InfOf(id, nx) ==
+  CASE id = "i1" -> InfCon("i1", X(1), CI(3))
+    [] id = "i2" -> InfCon("i2", Sq(X(1)), CI(9))
+    [] id = "i3" -> InfCon("i3", Plus(X(1), Times(CI(2), X(nx))), C(7, 2))
+    [] id = "i4" -> InfCon("i4", Times(X(1), X(nx)), Plus(CI(5), Sq(X(1))))
+    [] id = "i5" -> InfCon("i5", Plus(X(1), DX(1)), CI(11))
+    [] id = "i6" -> Con("i6", "ge", Minus(X(1), Times(C(1, 2), DX(nx))), CI(-6), "inf", TRUE, TRUE)
+MkDeclInf(s) ==
+  LET N == s.N
+      d0 == Rhs(s.rhs, N)
+      d1 == [d0 EXCEPT !.method = Method(s.meth, N, s.M, "rk", IF s.grid = "free" THEN FreeG ELSE GridOf(s.grid, N)),
+                       !.cons = <<InfOf(s.ic, Len(d0.states))>>, !.obj = <<O1, O3>>]
+  IN WithHorizon(d1, s.hz, IF s.seed % 2 = 0 THEN One ELSE Q(-1, 2), TBase(IF s.grid = "free" THEN "uni" ELSE s.grid, N))
+SpaceInf == {s \in [rhs : {"R1", "R2", "R3"}, meth : {"MS", "SS"}, N : 1..(IF Thorough THEN 3 ELSE 2), M : 1..2, grid : {"uni", "geo", "fun", "free"},
+                    hz : {"num", "fT"}, ic : InfIds, seed : {Seed}, cons : {<<>>}, obj : {<<>>}] :
+                (s.ic = "i4" => s.rhs = "R3")}      \* with one state i4 degenerates to a true constant
 
 IsX == Family \in {"C09", "C10", "C11", "C14"}
 MaxN == IF Thorough THEN 4 ELSE 3
@@ -328,12 +355,13 @@ Code(s) == s.N + 3 * s.M + s.seed + Len(s.cons) + Len(s.obj)
            + (CASE s.grid = "uni" -> 0 [] s.grid = "geo" -> 1 [] s.grid = "geoL" -> 2 [] s.grid = "fun" -> 3 [] OTHER -> 4)
            + (CASE s.meth = "MS" -> 0 [] OTHER -> 5)
 
-Init == sc \in {s \in (CASE Family = "C06" -> SpaceG [] Family = "C07" -> SpaceS [] IsX -> SpaceX [] Family = "C08" -> SpaceR [] OTHER -> Space) : Code(s) % Parts = Part}
+Init == sc \in {s \in (CASE Family = "C06" -> SpaceG [] Family = "C07" -> SpaceS [] IsX -> SpaceX [] Family = "C08" -> SpaceR [] Family = "C15" -> SpaceInf [] OTHER -> Space) : Code(s) % Parts = Part}
 Next == UNCHANGED sc
 
-DeclOf(s) == CASE Family = "C06" -> MkDeclG(s) [] Family = "C07" -> MkDeclS(s) [] IsX -> MkDeclX(s) [] Family = "C08" -> MkDeclR(s) [] OTHER -> MkDecl(s)
+DeclOf(s) == CASE Family = "C06" -> MkDeclG(s) [] Family = "C07" -> MkDeclS(s) [] IsX -> MkDeclX(s) [] Family = "C08" -> MkDeclR(s) [] Family = "C15" -> MkDeclInf(s) [] OTHER -> MkDecl(s)
 Emit == LET d == DeclOf(sc)
-            pr == IF Family = "C06" THEN MkProbeG(d, sc) ELSE IF IsX THEN MkProbeX(d, sc) ELSE IF Family = "C08" THEN FeasibleProbe(d, sc.seed) ELSE MkProbe(d, sc.seed)
+            pr == IF Family = "C06" THEN MkProbeG(d, sc) ELSE IF IsX THEN MkProbeX(d, sc) ELSE IF Family = "C08" THEN FeasibleProbe(d, sc.seed)
+                  ELSE IF Family = "C15" THEN FeasibleProbeG(d, sc.seed, MkProbeX(d, sc).gv) ELSE MkProbe(d, sc.seed)
             pr2 == [MkProbe(d, sc.seed + 4) EXCEPT !.gv = pr.gv]
         IN TLCSet(1, Append(TLCGet(1), [fam |-> Family, sc |-> sc, decl |-> d, probe |-> pr, pred |-> Predict(d, pr, pr2)]))
 
